@@ -643,11 +643,41 @@ func returnsOf(fn *ssa.Function) []*ssa.Return {
 		if b == fn.Recover {
 			continue
 		}
-		if r := blockReturn(b); r != nil {
+		if r := blockReturn(b); r != nil && !deadBlock(b) {
 			out = append(out, r)
 		}
 	}
 	return out
+}
+
+// deadBlock: b is only entered through a branch whose condition is a comparison of two constants with the
+// other outcome (`nil != nil` after a helper was inlined and its failure exits were threaded): it never runs.
+func deadBlock(b *ssa.BasicBlock) bool {
+	for _, g := range guardsOf(b) {
+		bo, ok := g.cond.(*ssa.BinOp)
+		if !ok || (bo.Op != token.EQL && bo.Op != token.NEQ) {
+			continue
+		}
+		x, xok := bo.X.(*ssa.Const)
+		y, yok := bo.Y.(*ssa.Const)
+		if !xok || !yok {
+			continue
+		}
+		var eq bool
+		switch {
+		case x.Value == nil && y.Value == nil:
+			eq = true
+		case x.Value == nil || y.Value == nil:
+			continue
+		default:
+			eq = x.Value.ExactString() == y.Value.ExactString()
+		}
+		holds := eq == (bo.Op == token.EQL)
+		if holds != g.val {
+			return true
+		}
+	}
+	return false
 }
 
 // guardsOnEdge: branch decisions that hold whenever control flows along from->to.
